@@ -20,6 +20,16 @@ struct DfOption
 	template <class P> std::size_t size(P const&) const { return sizeof(v); }
 };
 
+// any integer socket option (level, name, value), for options that have nothing to do with fragmentation
+struct AnyOption
+{
+	int lv; int nm; int v;
+	template <class P> int level(P const&) const { return lv; }
+	template <class P> int name(P const&) const { return nm; }
+	template <class P> void const* data(P const&) const { return &v; }
+	template <class P> std::size_t size(P const&) const { return sizeof(v); }
+};
+
 struct Sched
 {
 	asio::io_context& ios;
@@ -63,7 +73,7 @@ struct Dgram
 	ip::udp::endpoint src_real, src_visible, dst;
 	int len; std::int64_t t_send;
 	bool accepted = false; int send_ec = 0; std::size_t send_ret = 0;
-	bool df = false; bool over_mtu = false;
+	bool df = false; bool over_mtu = false; std::string other_opts;
 	int binding_at_send = -1;     // reference: which binding held dst when it was sent (-1: none)
 	bool on_wire = false; int queue_drops = 0; std::int64_t t_node = -1;
 	int delivered = 0; std::int64_t t_deliv = -1; int deliv_sock = -1; std::size_t deliv_n = 0;
@@ -71,6 +81,9 @@ struct Dgram
 	bool tiny = false; std::uint64_t tiny_val = 0;
 	std::uint8_t byte(std::size_t i) const { return tiny ? std::uint8_t(tiny_val >> (8 * i)) : stream_byte(key, i); }
 };
+
+// violations of the don't-fragment rule on a socket that also set unrelated options carry the options in their key
+std::string optsfx(Dgram const& d) { return d.other_opts.empty() ? std::string() : ":socket-also-set-" + d.other_opts; }
 
 struct Binding { int sock; ip::udp::endpoint ep; std::int64_t t_from; std::int64_t t_to; };
 
@@ -89,6 +102,7 @@ struct USock
 	std::int64_t t_posted = 0;
 	OpPtr rop;
 	int df_state = 0; // 0 untouched, 1 set, 2 cleared
+	std::string other_opts; // unrelated options set on this socket (after the don't-fragment decision), for violation keys
 	std::int64_t sndbuf_bytes = 20000000; // send buffer in bytes (default: 200 ms at the NIC rate of 100 MB/s)
 	std::int64_t model_next_send = 0;     // reference model of the NIC: when the bytes accepted so far will have left
 };
@@ -212,7 +226,7 @@ struct World
 		}
 		auto it = bound.find(dst);
 		d.binding_at_send = it == bound.end() ? -1 : it->second;
-		d.df = u.df_state == 1;
+		d.df = u.df_state == 1; d.other_opts = u.other_opts;
 		std::size_t const ev_before = log.ev.size();
 		error_code ec; std::size_t ret = 0;
 		// reference model of the send buffer: accepted bytes (payload + 28) leave at the documented NIC rate
@@ -442,7 +456,7 @@ struct World
 			if (it == last_delivered.end() || it->second < d.id) last_delivered[key] = d.id;
 		}
 		if (d.df && d.over_mtu)
-			R().violation("C20", "df-oversize-delivered", who + fmt(": datagram %" PRIu64 " of %d bytes exceeds the path MTU and was sent with don't-fragment set, yet it was delivered", d.id, d.len));
+			R().violation("C20", "df-oversize-delivered" + optsfx(d), who + fmt(": datagram %" PRIu64 " of %d bytes exceeds the path MTU and was sent with don't-fragment set, yet it was delivered", d.id, d.len));
 	}
 
 	void drain_all()
@@ -512,7 +526,7 @@ void check_fates(World& w)
 		if (d.df && d.over_mtu)
 		{
 			r.count("df_oversize_datagrams");
-			if (d.on_wire) r.violation("C20", "df-oversize-sent", fmt("datagram %" PRIu64 " (%d bytes, over the path MTU, don't-fragment set) was put on the wire", d.id, d.len));
+			if (d.on_wire) r.violation("C20", "df-oversize-sent" + optsfx(d), fmt("datagram %" PRIu64 " (%d bytes, over the path MTU, don't-fragment set) was put on the wire", d.id, d.len));
 			continue;
 		}
 		if (d.over_mtu) r.count("oversize_datagrams_without_df");
@@ -529,7 +543,7 @@ void check_fates(World& w)
 		Binding const& b = w.bindings[std::size_t(d.binding_at_send)];
 		if (!d.on_wire)
 		{
-			r.violation(d.over_mtu ? "C20" : "C08", d.over_mtu ? "oversize-without-df-not-sent" : "accepted-datagram-not-sent"
+			r.violation(d.over_mtu ? "C20" : "C08", d.over_mtu ? "oversize-without-df-not-sent" + optsfx(d) : std::string("accepted-datagram-not-sent")
 				, what + " was accepted by send_to, a socket was bound at the destination, but it never appeared on the wire");
 			if (!d.over_mtu && d.df)
 				r.violation("C20", "in-mtu-datagram-discarded-by-df-option", what + fmt(" is within the path MTU (%d) but was not sent by a socket with don't-fragment set"
@@ -630,8 +644,27 @@ void gen_and_run(World& w, bool c20)
 		else if (dfc == 1) { API(u.s->set_option(DfOption{IP_DONTFRAGMENT, 1}, ec)); u.df_state = 1; }
 		else if (dfc == 2) { API(u.s->set_option(DfOption{IP_MTU_DISCOVER, IP_PMTUDISC_DONT}, ec)); u.df_state = 2; }
 		else if (dfc == 3) { API(u.s->set_option(DfOption{IP_MTU_DISCOVER, IP_PMTUDISC_DO}, ec)); API(u.s->set_option(DfOption{IP_DONTFRAGMENT, 0}, ec)); u.df_state = 2; }
+		// options that have nothing to do with fragmentation, set after the don't-fragment decision, must leave it alone
+		if (rng.coin(1, 2))
+		{
+			struct O { int lv, nm, v; char const* name; };
+			static O const opts[] = {
+				{SOL_SOCKET, SO_BROADCAST, 1, "SO_BROADCAST"}, {SOL_SOCKET, SO_REUSEADDR, 1, "SO_REUSEADDR"}, {IPPROTO_IP, IP_TTL, 64, "IP_TTL"},
+				{IPPROTO_IP, IP_MULTICAST_TTL, 4, "IP_MULTICAST_TTL"}, {IPPROTO_IP, IP_MULTICAST_LOOP, 0, "IP_MULTICAST_LOOP"},
+				{SOL_SOCKET, SO_DEBUG, 1, "SO_DEBUG"}, {SOL_SOCKET, SO_DEBUG, 0, "SO_DEBUG=0"}, {SOL_SOCKET, SO_OOBINLINE, 1, "SO_OOBINLINE"},
+				{IPPROTO_IP, IP_TOS, 0x20, "IP_TOS"}, {IPPROTO_IP, IP_TOS, 0, "IP_TOS=0"}, {IPPROTO_IPV6, IPV6_TCLASS, 0x20, "IPV6_TCLASS"},
+				{IPPROTO_IPV6, IPV6_UNICAST_HOPS, 10, "IPV6_UNICAST_HOPS"}, {SOL_SOCKET, SO_KEEPALIVE, 1, "SO_KEEPALIVE"}};
+			int const n = 1 + rng.choose(2);
+			for (int k = 0; k < n; ++k)
+			{
+				O const& o = opts[rng.choose(int(sizeof(opts) / sizeof(opts[0])))];
+				API(u.s->set_option(AnyOption{o.lv, o.nm, o.v}, ec));
+				u.other_opts += std::string(u.other_opts.empty() ? "" : "+") + o.name;
+				R().count("unrelated_socket_options_set");
+			}
+		}
 		send_ids.push_back(u.id);
-		w.desc += fmt(" | send%d n%d df=%d", u.id, u.node, u.df_state);
+		w.desc += fmt(" | send%d n%d df=%d%s", u.id, u.node, u.df_state, u.other_opts.empty() ? "" : (" then " + u.other_opts).c_str());
 	}
 	R().cur_desc = w.desc;
 
